@@ -44,9 +44,10 @@ type (
 		Body   Expr
 	}
 	EQuant struct {
-		Forall bool
-		Vars   []QVar
-		Body   Expr
+		Forall   bool
+		Vars     []QVar
+		Triggers []Expr
+		Body     Expr
 	}
 )
 
@@ -127,7 +128,7 @@ func lex(s string) ([]tok, error) {
 			toks = append(toks, tok{"str", s[i+1 : j]})
 			i = j + 1
 		default:
-			ops := []string{"<==>", "==>", "::", "==", "!=", "<=", ">=", "&&", "||", "<<", ">>", "<", ">", "+", "-", "*", "/", "%", "!", "(", ")", "[", "]", ",", ".", "?", ":"}
+			ops := []string{"<==>", "==>", "::", "{", "}", "==", "!=", "<=", ">=", "&&", "||", "<<", ">>", "<", ">", "+", "-", "*", "/", "%", "!", "(", ")", "[", "]", ",", ".", "?", ":"}
 			found := false
 			for _, op := range ops {
 				if strings.HasPrefix(s[i:], op) {
@@ -228,6 +229,22 @@ func (p *parser) expr(minPrec int) (Expr, error) {
 				break
 			}
 		}
+		var trig []Expr
+		if p.accept("{") {
+			for {
+				te, err := p.expr(0)
+				if err != nil {
+					return nil, err
+				}
+				trig = append(trig, te)
+				if p.accept("}") {
+					break
+				}
+				if !p.accept(",") {
+					return nil, fmt.Errorf("quantifier: expected , or } in trigger")
+				}
+			}
+		}
 		if !p.accept("::") {
 			return nil, fmt.Errorf("quantifier: expected ::")
 		}
@@ -235,7 +252,7 @@ func (p *parser) expr(minPrec int) (Expr, error) {
 		if err != nil {
 			return nil, err
 		}
-		return EQuant{q == "forall", vars, body}, nil
+		return EQuant{q == "forall", vars, trig, body}, nil
 	}
 	lhs, err := p.unary()
 	if err != nil {
